@@ -68,7 +68,10 @@ type Ann struct {
 	Style  string `json:"style"`
 	// Ill: "" = well-formed; "nullish" = empty/null document (outcome left open by the
 	// statement); anything else names the way the payload was made ill-formed.
-	Ill     string   `json:"ill,omitempty"`
+	Ill string `json:"ill,omitempty"`
+	// Extra: irregularities on top of the payload (unknown_field, dup_key, anchor_alias,
+	// second_document); they never turn a malformed payload into a well-formed one.
+	Extra   []string `json:"extra,omitempty"`
 	Devices []Dev    `json:"devices,omitempty"`
 	CDI     []string `json:"cdi,omitempty"`
 	Mounts  []Mnt    `json:"mounts,omitempty"`
@@ -227,6 +230,25 @@ func shuffleKeys(t *rapid.T, n *node) {
 		keys[i], items[i] = n.keys[j], n.items[j]
 	}
 	n.keys, n.items = keys, items
+	anchorBeforeAlias(n)
+}
+
+// anchorBeforeAlias keeps "&x value" ahead of "*x" in a mapping (an alias must follow its
+// anchor in the text).
+func anchorBeforeAlias(n *node) {
+	ai, li := -1, -1
+	for i, it := range n.items {
+		if it.k == nRaw && strings.HasPrefix(it.s, "&") && ai < 0 {
+			ai = i
+		}
+		if it.k == nRaw && strings.HasPrefix(it.s, "*") && li < 0 {
+			li = i
+		}
+	}
+	if ai >= 0 && li >= 0 && li < ai {
+		n.keys[ai], n.keys[li] = n.keys[li], n.keys[ai]
+		n.items[ai], n.items[li] = n.items[li], n.items[ai]
+	}
 }
 
 func renderDoc(t *rapid.T, n *node, style string) string {
@@ -425,10 +447,10 @@ func (a *Ann) fill(t *rapid.T, min int) {
 }
 
 var illKinds = map[string][]string{
-	famDev:  {"scalar", "mapping", "elem_type", "broken_syntax", "str_in_int", "out_of_range"},
+	famDev:  {"scalar", "mapping", "elem_type", "broken_syntax", "str_in_int", "out_of_range", "quoted_number"},
 	famCDI:  {"scalar", "mapping", "elem_type", "broken_syntax"},
 	famMnt:  {"scalar", "mapping", "elem_type", "broken_syntax", "scalar_options", "seq_in_string"},
-	famRlim: {"unknown_type", "hard_lt_soft", "unknown_type", "hard_lt_soft", "unknown_type", "hard_lt_soft", "scalar", "mapping", "elem_type", "broken_syntax", "str_in_int", "out_of_range"},
+	famRlim: {"unknown_type", "hard_lt_soft", "unknown_type", "hard_lt_soft", "unknown_type", "hard_lt_soft", "scalar", "mapping", "elem_type", "broken_syntax", "str_in_int", "out_of_range", "quoted_number", "missing_type"},
 }
 
 var unknownRlimits = []string{"NOFILE,NPROC", "RLIMIT_NOFILE:1", "NOFILE=1", "RLIMIT NOFILE", "RLIMIT_/NOFILE", `"NOFILE"`, "NOFILE ", "RLIMIT_NOFILE,",
@@ -449,9 +471,14 @@ var nullishTexts = []string{"", "null", "~", " ", "\n", "# nothing here\n"}
 //	unknown_type         not a Linux resource limit name
 //	hard_lt_soft         hard limit below the soft limit
 func (a *Ann) corrupt(t *rapid.T, kind string) string {
+	n := len(a.Devices) + len(a.CDI) + len(a.Mounts) + len(a.Rlimits)
+	pick := rapid.IntRange(0, n-1).Draw(t, "victim")
+	anchorAt := -1
+	if a.has(exAnchor) {
+		anchorAt = a.prepareAnchor(pick)
+	}
 	doc := a.node()
 	style := a.Style
-	pick := rapid.IntRange(0, len(doc.items)-1).Draw(t, "victim")
 	el := doc.items[pick]
 	intFields := map[string][]string{famDev: {"major", "minor", "file_mode", "uid", "gid"}, famRlim: {"hard", "soft"}}[a.Family]
 	strFields := map[string][]string{famDev: {"path", "type"}, famMnt: {"source", "destination", "type"}, famRlim: {"type"}}[a.Family]
@@ -477,6 +504,24 @@ func (a *Ann) corrupt(t *rapid.T, kind string) string {
 	case "str_in_int":
 		f := rapid.SampledFrom(intFields).Draw(t, "field")
 		el.put(f, rapid.SampledFrom([]*node{nR("abc"), nS("abc"), nR("1x"), nS("twelve"), nS("")}).Draw(t, "badint"))
+	case "quoted_number": // a string, not an integer, even if it spells one
+		f := rapid.SampledFrom(intFields).Draw(t, "field")
+		el.put(f, nR(rapid.SampledFrom([]string{`"1024"`, `'7'`, `"0"`, "100 procs", "1024k", `"-1"`}).Draw(t, "quoted")))
+		if a.Family == famRlim {
+			if f == "hard" {
+				el.put("soft", nU(0))
+			} else {
+				el.put("hard", nU(math.MaxUint64))
+			}
+		}
+	case "missing_type": // an rlimit without a type names no Linux resource limit
+		keys, items := []string{}, []*node{}
+		for i, k := range el.keys {
+			if k != "type" {
+				keys, items = append(keys, k), append(items, el.items[i])
+			}
+		}
+		el.keys, el.items = keys, items
 	case "out_of_range":
 		f := rapid.SampledFrom(intFields).Draw(t, "field")
 		var bad []string
@@ -533,10 +578,14 @@ func (a *Ann) corrupt(t *rapid.T, kind string) string {
 				style = "flow"
 				a.Style = style
 			}
+			a.dropExtra(exSecondDoc) // nothing may follow the unbalanced bracket
+			a.decorate(t, doc, anchorAt)
 			s := strings.TrimRight(renderDoc(t, doc, style), "\n ")
 			return s[:len(s)-1]
 		case 1: // a last list element whose double quote is never closed
 			a.Style = "block"
+			a.dropExtra(exSecondDoc) // the open quote must run to the end of the text
+			a.decorate(t, doc, anchorAt)
 			shuffleKeys(t, doc)
 			s := (&renderer{ch: rapidChooser{t}, style: "block"}).render(doc)
 			ind := len(s) - len(strings.TrimLeft(s, " "))
@@ -553,7 +602,8 @@ func (a *Ann) corrupt(t *rapid.T, kind string) string {
 	default:
 		panic("unknown ill kind " + kind)
 	}
-	return renderDoc(t, doc, style)
+	a.Style = style
+	return a.renderAnn(t, doc, anchorAt)
 }
 
 // related container names: prefixes, extensions and suffix relatives of the container's name
@@ -660,6 +710,7 @@ func genC20(t *rapid.T) C20Case {
 		case "ill":
 			a.Ill = rapid.SampledFrom(illKinds[fam]).Draw(t, "illkind")
 			a.fill(t, 1)
+			a.Extra = drawExtras(t, fam)
 			a.Text = a.corrupt(t, a.Ill)
 			// the values of an ill-formed payload play no role in the expectation
 			a.Devices, a.CDI, a.Mounts = nil, nil, nil
@@ -670,7 +721,15 @@ func genC20(t *rapid.T) C20Case {
 			a.Text = renderDoc(t, a.node(), a.Style)
 		default:
 			a.fill(t, 1)
-			a.Text = renderDoc(t, a.node(), a.Style)
+			a.Extra = drawExtras(t, fam)
+			anchorAt := -1
+			if a.has(exAnchor) {
+				anchorAt = a.prepareAnchor(-1)
+			}
+			a.Text = a.renderAnn(t, a.node(), anchorAt)
+		}
+		if len(a.Extra) == 0 {
+			a.Extra = nil
 		}
 		return a
 	})
